@@ -172,6 +172,25 @@ func (u *Universe) checkG1() []*Oblig {
 										return true
 									}
 								}
+							case *ast.CallExpr:
+								// passed to an unexported helper of the repository (a generic lookup helper): the executor follows
+								// the alias into the helper (helpers without contract are inlined) and reports a write through it
+								for _, a := range par.Args {
+									if a == ast.Expr(x) {
+										if id, ok := par.Fun.(*ast.Ident); ok {
+											if fn, ok := info.Uses[id].(*types.Func); ok && !fn.Exported() && fn.Pkg() == v.Pkg() {
+												return true
+											}
+										}
+										if ie, ok := par.Fun.(*ast.IndexExpr); ok { // explicit instantiation helper[K](...)
+											if id, ok := ie.X.(*ast.Ident); ok {
+												if fn, ok := info.Uses[id].(*types.Func); ok && !fn.Exported() && fn.Pkg() == v.Pkg() {
+													return true
+												}
+											}
+										}
+									}
+								}
 							case *ast.ReturnStmt:
 								// an unexported helper that selects a table (return pkgTable, true): the alias is followed by the
 								// executor in the callers (helpers without contract are inlined), writes through it are reported there
